@@ -365,6 +365,11 @@ def run_check(pid, plan, tier, seed, replay=None):
     mcs = P.get("mc", [])
     shards = P.get("shards", [])
     results = []
+    if os.environ.get("VERIF_ONLY") and os.environ.get("VERIF_REPO"):
+        # development aid (scratch trees only, evidence goes to work/mut_*): run only the shards whose name matches
+        import re as _re
+        shards = [s for s in shards if _re.search(os.environ["VERIF_ONLY"], s.name)]
+        mcs = []
 
     def _one_mc(mc, idx):
         if isinstance(mc, Apa):
